@@ -93,22 +93,18 @@ let rec chunks_of (l : 'a list) (k : int) : 'a list list =
     let (a, b) = take k l [] in
     a :: chunks_of b k
 
-let rec firstn k l = if k = 0 then [] else match l with [] -> [] | x :: r -> x :: firstn (k - 1) r
-
-(* scan: "<out_cap> <read_buf> <sample_len> <hex|->"
+(* scan: "<out_cap> <read_buf> <INFER_BUF_SIZE> <MAX_INFER_BUF_SIZE> <hex|->"
    -> PANIC | BINDERR | OK <d,q|none> <hdr> <types ,> <names , (hex or -)> <rows|ERR|EMPTY> *)
 let scan_cmd () =
   (try
      while true do
        let line = input_line stdin in
        match split_ws line with
-       | [cap; rb; sl; hx] ->
+       | [cap; rb; init; mx; hx] ->
          let data = if hx = "-" then [] else bytes_of_hex hx in
-         let sample = firstn (int_of_string sl) data in
-         (* read_csv.rs bind: the sample reached the end of the file iff the read left the buffer partly empty *)
-         let eof = List.length data < int_of_string sl in
          let chunks = chunks_of data (int_of_string rb) in
-         (match read_csv sample eof (nat_of_int (int_of_string cap)) chunks with
+         (match read_csv (n_of_int (int_of_string init)) (n_of_int (int_of_string mx)) data
+                  (nat_of_int (int_of_string cap)) chunks with
           | ScanPanic -> print_endline "PANIC"
           | ScanBindErr -> print_endline "BINDERR"
           | ScanOk (od, s, rows) ->
@@ -117,6 +113,23 @@ let scan_cmd () =
               (String.concat "," (List.map cand_str s.col_types))
               (String.concat "," (List.map (function None -> "-" | Some f -> "x" ^ hex_of_bytes f) s.col_names))
               (render_rows rows))
+       | [] -> ()
+       | _ -> failwith ("bad line " ^ line)
+     done
+   with End_of_file -> ())
+
+(* queue: "<delim> <quote> <hdr> <types ,> <out_cap> <read_buf> <hex;hex;..>" -> rows of one partition's file queue *)
+let queue_cmd () =
+  (try
+     while true do
+       let line = input_line stdin in
+       match split_ws line with
+       | [dl; q; hdr; tys; cap; rb; hxs] ->
+         let files = List.map (fun hx -> chunks_of (if hx = "-" then [] else bytes_of_hex hx) (int_of_string rb)) (split_on ';' hxs) in
+         let types = List.map cand_of (split_on ',' tys) in
+         (match read_queue prepare (dialect_of dl q) (nat_of_int (int_of_string cap)) (hdr = "1") h_init files with
+          | None -> print_endline "PANIC"
+          | Some rows -> print_endline (render_rows (type_rows types rows)))
        | [] -> ()
        | _ -> failwith ("bad line " ^ line)
      done
@@ -147,4 +160,5 @@ let () =
   | [_; "spec"] -> spec_cmd ()
   | [_; "scan"] -> scan_cmd ()
   | [_; "reader"] -> reader_cmd ()
-  | _ -> prerr_endline "usage: csv <decode|spec|scan|reader>"; exit 2
+  | [_; "queue"] -> queue_cmd ()
+  | _ -> prerr_endline "usage: csv <decode|spec|scan|reader|queue>"; exit 2
